@@ -28,6 +28,7 @@ G_DECIDING = {"G5", "G8"}
 def plan(tier, seed):
     q = tier == "quick"
     specs = shards("docs", 4000 if q else 250000, 250 if q else 4000, seed)
+    specs += shards("reused", 1500 if q else 80000, 250 if q else 4000, seed)
     specs += shards("noisy", 4000 if q else 150000, 500 if q else 5000, seed)
     specs += shards("faulted", 2000 if q else 80000, 250 if q else 4000, seed)
     specs += shards("rows", 6 ** 5 if q else 6 ** 7, 6 ** 4 if q else 6 ** 5, seed, L=5 if q else 7)
@@ -40,11 +41,12 @@ ROW_ALPHABET = ["|", "\\", "n", " ", "x", "\U0001F600"]
 
 def run_shard(spec, M):
     fam, seed = spec["family"], spec["seed"]
-    if fam == "docs":
+    if fam in ("docs", "reused"):
+        reused = doccheck.Reused(rng(seed, ID, "reused", spec["shard"])) if fam == "reused" else None
         for i in range(spec["start"], spec["start"] + spec["n"]):
             R = doccheck.make_doc(seed, fam, i)
             case = {"kind": "doc", "family": fam, "index": i, "seed": seed, "text": R.text}
-            doccheck.check_doc(R, M, case, "C04")
+            doccheck.check_doc(R, M, case, "C04", reused=reused)
             if i % 499 == 0:
                 M.sample({"dialect": R.dialect, "text": short(R.text, 300)})
     elif fam == "noisy":
